@@ -225,6 +225,99 @@ def repeated_calls(run):
             return
 
 
+def _runner(eng, ctx_factory):
+    def go(text, data=None):
+        log = []
+        ctx = ctx_factory()
+        ctx.register_function(lambda id, value: (log.append(id), value)[1], name="tick")
+        try:
+            r = ("ok", eng(text).evaluate(data=data, context=ctx))
+        except Exception as e:
+            r = ("err", type(e).__name__)
+        return log, r
+    return go
+
+
+def legacy_tables(run):
+    """The lazy forms under the yaql 0.2 compatibility layer (legacy context, with the 0.2 grammar and with the 1.x
+    grammar): `value.switch(c1 => r1, ...)` evaluates the cases one by one and stops at the first one that holds - the
+    cases after it stay unevaluated; inside a case the 0.2 grammar (`=>` is an operator with an eager right operand)
+    evaluates result then condition, the 1.x grammar condition then result; and/or/coalesce short-circuit as in
+    standard mode."""
+    import yaql
+    from yaql import legacy
+    T, F = "true", "false"
+    for old in (True, False):
+        eng = legacy.YaqlFactory().create() if old else yaql.YaqlFactory().create()
+        go = _runner(eng, legacy.create_context)
+        rows = []
+        for conds in itertools.product([T, F], repeat=3):
+            want = [0]
+            for i, c in enumerate(conds):
+                want += ([2 * i + 2, 2 * i + 1] if old else [2 * i + 1, 2 * i + 2])
+                if c == T:
+                    break
+            cases = ", ".join("tick(%d, %s) => tick(%d, %d)" % (2 * i + 1, c, 2 * i + 2, i) for i, c in enumerate(conds))
+            rows.append(("tick(0, 7).switch(%s)" % cases, want))
+            rows.append(("switch(tick(0, 7), %s)" % cases, want))
+        for d, sel in ((1, 1), (5, 2), (50, 3)):
+            want = [0]
+            for k in range(1, sel + 1):
+                want += ([2 * k, 2 * k - 1] if old else [2 * k - 1, 2 * k])
+            rows.append(("tick(0, %d).switch(tick(1, $ < 3) => tick(2, a), tick(3, $ < 7) => tick(4, b), tick(5, true) => tick(6, c))" % d, want))
+        for a, b in itertools.product([T, F, "0", "1", "null"], repeat=2):
+            ta = a in (T, "1")
+            rows.append(("tick(1, %s) and tick(2, %s)" % (a, b), [1, 2] if ta else [1]))
+            rows.append(("tick(1, %s) or tick(2, %s)" % (a, b), [1] if ta else [1, 2]))
+        rows.append(("coalesce(tick(1, null), tick(2, 4), tick(3, 5))", [1, 2]))
+        for text, want in rows:
+            log, r = go(text)
+            run.case(("legacy", old, text), nontrivial=True)
+            run.count("legacy_row")
+            if r[0] == "err" and r[1] in ("NoMatchingFunctionException", "NoFunctionRegisteredException", "NoMatchingMethodException",
+                                         "NoMethodRegisteredException", "YaqlGrammarException", "YaqlLexicalException"):
+                run.count("legacy_row_not_available")
+                continue
+            if log != want or r[0] == "err":
+                run.fail("violation", "legacy mode: a lazy form evaluated operands other than the ones it selects",
+                         {"program": text, "grammar": "0.2" if old else "1.x", "observed_log": log, "required_log": want,
+                          "observed": repr(r), "required": "legacy row"})
+                return
+
+
+def aggregator_rows(run):
+    """groupBy: key and value selectors once per element (value first... as the implementation orders them is NOT
+    claimed; only the COUNTS are), the aggregator once per group - the documented exception being the pre-1.1.1
+    aggregator syntax, whose recognition costs ONE extra attempt on the first group and then sticks."""
+    go = _runner(ec.engine(), __import__("yaql").create_context)
+    docs = [[[1, 10], [2, 20], [1, 30], [3, 5]], [[1, 10]], [[1, 1], [1, 2], [2, 3], [2, 4], [3, 5], [4, 6]], [],
+            [[1, 10], [2, 20], [2, 30], [3, 5]], [[1, 1], [1, 2], [1, 3], [2, 4], [3, 5], [2, 6]], [[5, 1], [6, 2], [7, 3], [8, 4]]]
+    for d in docs:
+        groups = len({x[0] for x in d})
+        rows = [("$.groupBy($[0], $[1], tick(1, $.sum()))", {1: groups}),
+                ("$.groupBy($[0], aggregator => tick(1, $.len()))", {1: groups}),
+                ("$.groupBy(tick(1, $[0]), tick(2, $[1]), tick(3, $.len()))", {1: len(d), 2: len(d), 3: groups}),
+                ("$.groupBy(tick(1, $[0]), tick(2, $[1]))", {1: len(d), 2: len(d)}),
+                # pre-1.1.1 syntax: `$` is [key, values]; on the bare value list `$[1].sum()` has no match
+                ("$.groupBy($[0], $[1], [tick(1, $[0]), $[1].sum()])", {1: groups + 1 if groups else 0}),
+                ("$.groupBy($[0], $[1], [tick(1, $[0]), tick(2, $[1]).sum()])", {1: groups + 1 if groups else 0})]
+        for text, counts in rows:
+            log, r = go(text, d)
+            got = {k: log.count(k) for k in counts}
+            run.case(("aggregator", text, len(d)), nontrivial=groups >= 2)
+            run.count("aggregator_row")
+            # documents whose first group has exactly two values are the documented blind spot of the old-syntax detection
+            if "[$[0]" in text or "[tick(1, $[0])" in text:
+                first = [x[1] for x in d if d and x[0] == d[0][0]]
+                if len(first) == 2:
+                    continue
+            if r[0] == "err" or got != {k: v for k, v in counts.items()}:
+                run.fail("violation", "groupBy evaluated a selector / the aggregator a different number of times than its meaning requires",
+                         {"program": text, "data": d, "observed_log": log, "required_log": "counts %r" % counts, "observed": repr(r)[:200],
+                          "required": "aggregator row"})
+                return
+
+
 CORPUS = ["1", "2", "0", "'ab'", "'a'", "[1, 2]", "[3]", "{a => 1}", "true", "null", "[[1, 2], [3]]"]
 
 
@@ -335,6 +428,8 @@ def oracle(run, deep):
     truth_tables(run)
     lazy_keyword_sweep(run)
     repeated_calls(run)
+    legacy_tables(run)
+    aggregator_rows(run)
     registry_sweep(run, deep)
 
 
@@ -355,7 +450,7 @@ def replay(run, data):
     d = data.get("data", {})
     if "required" in d and "required_log" in d:
         probe = _Probe()
-        repeated_calls(probe)
+        {"legacy row": legacy_tables, "aggregator row": aggregator_rows}.get(d["required"], repeated_calls)(probe)
         return not probe.failed
     if "required_log" in d:
         log, r = ec.run_real(d["program"], d.get("data"))
